@@ -296,7 +296,8 @@ class Exec:
     def get_field(self, st, recv, field, node=None):
         arr = self.harr(st, 'f:' + field)
         t = z3.Select(arr, rv(recv.t))
-        if not self.spec_mode and self.entry is not None:
+        if (not self.spec_mode or z3.is_const(recv.t)) and self.entry is not None:
+            # (inside specifications only for fields of the parameters themselves: facts about quantified terms swamp the instantiation stage)
             # entry-heap well-formedness: a reference stored in the heap when the function was entered points to an object
             # that existed then (stated for the initial field array at this receiver)
             a0 = self.entry.heap.get('f:' + field)
@@ -357,7 +358,14 @@ class Exec:
         """the class whose own attribute `name` an attribute lookup on class `cref` finds (first owner along the chain)"""
         own = self.harr(st, 'own:' + name)
         pos = self.cpos(name)
-        o = z3.Int(fresh_name('owner'))
+        # the owner is a function of (ownership array, class): the same lookup in the same ownership state denotes the same class
+        memo = self.__dict__.setdefault('_owner_memo', {})
+        key = (own.get_id(), cref.get_id(), name)
+        if key in memo:
+            o = memo[key][0]
+        else:
+            o = z3.Int(fresh_name('owner'))
+            memo[key] = (o, own, cref)       # keep the terms alive: ids are only unique among live terms
         d = z3.Int(fresh_name('d'))
         st.assume(z3.And(z3.Select(own, o), pos(cref, o) >= 0))
         st.assume(z3.ForAll([d], z3.Implies(z3.And(z3.Select(own, d), pos(cref, d) >= 0), pos(cref, o) <= pos(cref, d))))
@@ -366,6 +374,16 @@ class Exec:
     def symclass_get(self, st, recv, name):
         o = self.symclass_owner(st, rv(recv.t), name)
         t = z3.Select(self.harr(st, 'f:' + name), o)
+        if self.entry is not None:
+            # entry-heap well-formedness (as in get_field): a class attribute that held a reference at entry points to an object that existed then
+            a0 = self.entry.heap.get('f:' + name)
+            if a0 is None:
+                a0 = self.harr(self.entry, 'f:' + name)
+            t0 = z3.Select(a0, o)
+            fact = z3.Implies(is_r(t0), rv(t0) < self.entry_alloc())
+            if fact.get_id() not in self.global_ids:
+                self.global_ids.add(fact.get_id())
+                self.global_facts.append(fact)
         fty = REG.fields.get('symclass', {}).get(name)
         if fty is not None and recv.elems != 'cast':
             st.assume(self.type_pred(fty, t, st))
@@ -1171,10 +1189,20 @@ class Exec:
             r = z3.Extract(q, lo, z3.If(hi > lo, hi - lo, 0))
             return self.new_list(st, r, base.ty)
         if base.ty is None:
-            self.need_type(st, base, is_s, 'slice-base', e)
+            # a str or a list, decided by the value: the slice of a list is a new list (allocated in either case; unused for a str)
+            isl = z3.And(is_r(base.t), typ(rv(base.t)) == 1)
+            self.raise_if(st, z3.Not(z3.Or(is_s(base.t), isl)), 'TypeError', 'safe/type-slice-base', e)
+            if self.quick_unsat(st.pc, isl):
+                s_ = sv(base.t)
+                lo, hi = self.slice_bounds(sl, z3.Length(s_), st)
+                return Val(mk_s(z3.SubString(s_, lo, z3.If(hi > lo, hi - lo, 0))), 'str')
             s_ = sv(base.t)
-            lo, hi = self.slice_bounds(sl, z3.Length(s_), st)
-            return Val(mk_s(z3.SubString(s_, lo, z3.If(hi > lo, hi - lo, 0))), 'str')
+            q = z3.Select(self.harr(st, '$seq'), rv(base.t))
+            n = z3.If(isl, z3.Length(q), z3.Length(s_))
+            lo, hi = self.slice_bounds(sl, n, st)
+            cnt = z3.If(hi > lo, hi - lo, 0)
+            nl = self.new_list(st, z3.Extract(q, lo, cnt), 'list')
+            return Val(z3.If(isl, nl.t, mk_s(z3.SubString(s_, lo, cnt))), None)
         raise OutOfSubset('slice of %s' % base.ty)
 
     def e_ListComp(self, e, st):
